@@ -21,6 +21,7 @@ import (
 type fdReq struct {
 	Upgrade string `json:"upgrade"`
 	Accept  string `json:"accept"`
+	Origin  string `json:"origin"`
 	Method  string `json:"method"`
 	Doc     string `json:"doc"`
 	Def     string `json:"def"`
@@ -49,6 +50,8 @@ func buildDoc(d fdDoc) *mocrelay.NIP11 {
 		kinds = []*mocrelay.Nip11Kind{{From: 7, To: 7}, {From: 0, To: 0}}
 	case "zero-bound":
 		kinds = []*mocrelay.Nip11Kind{{From: 7, To: 0}, {From: 0, To: 5}, {From: 0, To: 0}}
+	case "wide":
+		kinds = []*mocrelay.Nip11Kind{{From: 9007199254740993, To: 9007199254740993}, {From: 9007199254740993, To: 9007199254740995}, {From: -9007199254740993, To: 2}}
 	case "mixed":
 		kinds = []*mocrelay.Nip11Kind{{From: 0, To: 0}, {From: 40, To: 49}, {From: 30000, To: 39999}, {From: 5, To: 5}}
 	}
@@ -161,13 +164,13 @@ func C20(run *core.Run) {
 		outcome, detail := frontDoorRequest(srv.URL, rq, h, wantDoc)
 		srv.Close()
 		run.Add("requests", 1)
-		distinct.Add(fmt.Sprintf("%s/%s/%s/%s", rq.Upgrade, rq.Accept, rq.Doc, rq.Def))
+		distinct.Add(fmt.Sprintf("%s/%s/%s/%s/%s", rq.Upgrade, rq.Accept, rq.Origin, rq.Doc, rq.Def))
 		allowed := false
 		for _, o := range strings.Split(rq.Outcome, "|") {
 			allowed = allowed || o == outcome
 		}
 		if !allowed {
-			run.Violate(fmt.Sprintf("route:upgrade=%s accept=%s doc=%s default=%s want=%s got=%s", rq.Upgrade, rq.Accept, rq.Doc, rq.Def, rq.Outcome, outcome),
+			run.Violate(fmt.Sprintf("route:upgrade=%s accept=%s origin=%s doc=%s default=%s want=%s got=%s", rq.Upgrade, rq.Accept, rq.Origin, rq.Doc, rq.Def, rq.Outcome, outcome),
 				fmt.Sprintf("%+v: observed %s (%s)", rq, outcome, detail), map[string]any{"request": rq})
 		}
 		if i == 5 {
@@ -271,6 +274,9 @@ func frontDoorRequest(url string, rq fdReq, h *recHandler, wantDoc []byte) (outc
 	}
 	if accept != "" {
 		req.Header.Set("Accept", accept)
+	}
+	if rq.Origin == "set" {
+		req.Header.Set("Origin", "https://client.example")
 	}
 	switch rq.Accept {
 	case "lines-exact-first":
